@@ -134,6 +134,10 @@ func (d *destination) unlock(now, end common.Timestamp, dry bool) (
 	if err != nil {
 		return 0, err
 	}
+	if amount > left {
+		// float64(left) rounds up for amounts above 2^53; never vest more than what is left
+		amount = left
+	}
 
 	if !dry {
 		err = d.move(now, amount)
